@@ -5,7 +5,7 @@ from __future__ import annotations
 
 import numpy as np
 
-from vlib.common import CaseResult, rng_for
+from vlib.common import CaseResult, off, rng_for
 
 ID = "C05"
 RULE = (
@@ -111,7 +111,7 @@ def judge(res, keyrep, lp, lpp, c, out, tag=""):
         res.violation("nan-code", f"undocumented error code: {wit(i)}", wit(i))
     res.mon("reported_prob", n)
     tol = 1e-5 * np.maximum(exp_alpha, 1e-30) + 1e-37
-    bad = np.where(np.abs(prob.astype(np.float64) - exp_alpha) > tol)[0]
+    bad = np.where(off(prob.astype(np.float64), exp_alpha, tol))[0]
     for i in bad[:3]:
         res.violation("reported-prob", f"reported {float(prob[i])!r}, rule gives {float(exp_alpha[i])!r}: {wit(i)}", wit(i))
     # zero-probability never accepted (NaN ratio or exp(d)==0 exactly, i.e. d=-inf)
